@@ -61,6 +61,7 @@ class Engine:
         self.inputs: Dict[str, Any] = {}    # name -> z3 const (for model read-out)
         self.bit_facts: Dict[Tuple[int, int], Tuple[bool, Any, Any]] = {}   # (id x, id off) -> (bit value, x, off)
         self.bit_rewrites = 0
+        self.fmt_terms: List[Any] = []      # terms rendered into message text (see fmt_token)
 
     # ------------------------------------------------------------------ solver plumbing
     def _check(self, *extra: Any) -> str:
@@ -263,6 +264,7 @@ class Engine:
                 self.pc = []
                 self.model = None
                 self.bit_facts = {}
+                self.fmt_terms = []
                 self.solver = z3.Solver()     # a fresh solver per path: no lemma/atom build-up across paths
                 self.solver.set('timeout', self.timeout_ms)
                 self.solver.push()
@@ -746,12 +748,28 @@ class SymInt:
         return self
 
     def __repr__(self) -> str:
-        return '<sym>'
+        return fmt_token(self.e)
 
     __str__ = __repr__
 
     def __format__(self, spec: str) -> str:
+        return fmt_token(self.e)
+
+
+def fmt_token(e: Any) -> str:
+    """text stand-in for a symbolic value inside formatted messages: a token from which the harness can recover the term"""
+    E = _E
+    if E is None:
         return '<sym>'
+    E.fmt_terms.append(e)
+    return f'\u27e6{len(E.fmt_terms) - 1}\u27e7'
+
+
+def tokens_in(text: str) -> List[Any]:
+    """the terms (in order) whose tokens occur in a formatted message"""
+    import re
+    E = engine()
+    return [E.fmt_terms[int(m)] for m in re.findall('\u27e6(\\d+)\u27e7', text)]
 
 
 def bit_lemmas(w: int) -> List[Tuple[Any, str]]:
@@ -848,7 +866,9 @@ class int_shim(metaclass=IntShim):
 
 def sym_hex(x: Any) -> str:
     import builtins
-    return '0x<sym>' if is_sym(x) else builtins.hex(x)
+    if type(x) is SymInt:
+        return '0x' + fmt_token(x.e)
+    return builtins.hex(int(x)) if not is_sym(x) else '0x<symbool>'
 
 
 # ====================================================================== byte strings
